@@ -7,7 +7,7 @@ PROPS = {}
 SOURCE_COMMITS = []   # hook commits in /repo (none: contracts live in /verif); fix: commits are listed in known_findings.txt
 # properties not (yet) claimed, with the reason that goes to MANIFEST.not_applicable
 UNCLAIMED = {p: "no check is registered for this property yet (contracts planned in DESIGN.md section 4 are not built); nothing is claimed"
-             for p in ("C05", "C11", "C15", "C18", "C19")}
+             for p in ("C05", "C11", "C15", "C19")}
 
 
 def J(**kw):
@@ -404,3 +404,101 @@ PROPS["C02"] = dict(
     not_decided=["the returned cell's boundary contains the point (gnomonic projection, libm)", "success and validity of the result for every finite coordinate"],
     level_text="Only the rejection clauses are proved (all doubles including NaN/inf, all ints); containment is outside the technique.",
     level_note="Category 'other'. _geoToFaceIjk and _faceIjkToH3 are frame-only contracts.")
+
+# ------------------------------------------------------------------ C18
+KNOWN_MUTABLE_STATICS = {   # static-lifetime objects of the library that are not const (reviewed; must never be written)
+    "H3ErrorDescriptions": ("h3Index.c", r"static char \*H3ErrorDescriptions\[\]", "static char *const H3ErrorDescriptions[]"),
+    "MAX_EDGE_LENGTH_RADS": ("polyfill.c", r"static double MAX_EDGE_LENGTH_RADS\[", "static const double MAX_EDGE_LENGTH_RADS["),
+    "NORTH_POLE_CELLS": ("polyfill.c", r"static H3Index NORTH_POLE_CELLS\[", "static const H3Index NORTH_POLE_CELLS["),
+    "SOUTH_POLE_CELLS": ("polyfill.c", r"static H3Index SOUTH_POLE_CELLS\[", "static const H3Index SOUTH_POLE_CELLS["),
+    "RES0_BBOXES": ("polyfill.c", r"static BBox RES0_BBOXES\[", "static const BBox RES0_BBOXES["),
+    "VALID_RANGE_BBOX": ("polyfill.c", r"static BBox VALID_RANGE_BBOX =", "static const BBox VALID_RANGE_BBOX ="),
+    "MAX_SIZE_CELL_THRESHOLD": ("polyfill.c", r"static int MAX_SIZE_CELL_THRESHOLD =", "static const int MAX_SIZE_CELL_THRESHOLD ="),
+}
+
+
+def static_inventory(ctx, sh):
+    """C18 obligations that are facts about the whole library rather than about one function:
+    (1) static-inventory: every writable static-lifetime object (file-scope or function-local 'static', from the symbol tables of the
+        natively compiled objects: nm types d/D/b/B) is on the reviewed list above -- a new one (a cache, a memo, a cursor) is a
+        failed obligation, because DFCC does not see writes to function-local statics;
+    (2) static-never-written: with each listed object declared const in a scratch copy, the library still compiles with
+        -Werror (no assignment, no non-const address escape), i.e. no code writes them."""
+    import os, re, shutil, subprocess, time
+    t0 = time.time()
+    import importlib
+    h3v_repo = os.environ.get("H3V_REPO", "/repo")
+    libsrc = os.path.join(h3v_repo, "src/h3lib/lib")
+    libinc = os.path.join(h3v_repo, "src/h3lib/include")
+    d = os.path.join(ctx.dir, "statics")
+    os.makedirs(d, exist_ok=True)
+    results = []
+
+    def add(name, desc, ok, extra=None):
+        results.append({"name": name, "desc": desc, "status": "SUCCESS" if ok else "FAILURE", "cls": "P", "loc": {},
+                        "trace": None, "detail": extra})
+    srcs = sorted(f for f in os.listdir(libsrc) if f.endswith(".c"))
+    base = ["cc", "-c", "-O0", "-DH3_PREFIX=", "-I" + libinc, "-I" + ctx.gen]
+    found = {}
+    for f in srcs:
+        o = os.path.join(d, f[:-2] + ".o")
+        p = subprocess.run(base + [os.path.join(libsrc, f), "-o", o], capture_output=True, text=True)
+        if p.returncode != 0:
+            return {"name": "c18.statics", "status": "undecided", "results": [], "cmds": [], "reason": "native compile failed: " + p.stderr[-300:],
+                    "solver_s": 0.0, "wall_s": time.time() - t0, "bounded": False, "job": {"name": "c18.statics", "props": ["C18"], "harness": "", "entry": ""}}
+        nm = subprocess.run(["nm", o], capture_output=True, text=True).stdout
+        for line in nm.splitlines():
+            parts = line.split()
+            if len(parts) == 3 and parts[1] in "dDbB":
+                found.setdefault(parts[2], f)
+    for sym, f in sorted(found.items()):
+        basename = sym.split(".")[0]
+        ok = sym in KNOWN_MUTABLE_STATICS
+        add("static-inventory.%s.%s" % (f, sym),
+            "writable static-lifetime object '%s' in %s is on the reviewed list%s" % (sym, f, "" if ok else
+            " -- NOT listed: a new mutable static (function-local statics appear as name.NNN) is shared by all threads"), ok,
+            {"symbol": sym, "file": f})
+    for sym in sorted(KNOWN_MUTABLE_STATICS):
+        if sym not in found:
+            add("static-inventory.listed.%s" % sym, "listed object '%s' no longer exists as a writable static (list is stale but harmless)" % sym, True)
+    # const-ification
+    cdir = os.path.join(d, "const")
+    os.makedirs(cdir, exist_ok=True)
+    for f in srcs:
+        txt = open(os.path.join(libsrc, f)).read()
+        for sym, (ff, pat, rep) in KNOWN_MUTABLE_STATICS.items():
+            if ff == f:
+                txt2, n = re.subn(pat, rep, txt)
+                if n == 1:
+                    txt = txt2
+        open(os.path.join(cdir, f), "w").write(txt)
+    for f in sorted(set(v[0] for v in KNOWN_MUTABLE_STATICS.values())):
+        p = subprocess.run(base + ["-Werror", "-Wall", "-Wno-unused-function", os.path.join(cdir, f), "-o", os.path.join(cdir, f[:-2] + ".o")],
+                           capture_output=True, text=True)
+        syms = [s2 for s2, v in KNOWN_MUTABLE_STATICS.items() if v[0] == f and s2 in found]
+        add("static-never-written." + f, "with %s declared const, %s still compiles under -Werror: no code writes them" % (", ".join(syms), f),
+            p.returncode == 0, {"compiler_output": p.stderr[-600:]})
+    status = "ok" if all(r["status"] == "SUCCESS" for r in results) else "fail"
+    return {"name": "c18.statics", "status": status, "results": results,
+            "cmds": ["cc -c -O0 -DH3_PREFIX= <each lib .c> && nm (writable data symbols) ; const-ified scratch copy compiled with -Werror"],
+            "reason": "", "solver_s": 0.0, "wall_s": time.time() - t0, "bounded": False,
+            "job": {"name": "c18.statics", "props": ["C18"], "harness": "", "entry": "", "no_canary": True}}
+
+
+PROPS["C18"] = dict(
+    level="other", hooks=["static_inventory"],
+    explanation="no schedule is explored. Decided as: (1) inventory of every static-lifetime object of the library from the compiled objects; the "
+                "only writable ones are seven reviewed tables/constants, any other (file-scope or function-local static) fails the check; "
+                "(2) those seven are never written (library compiles with them declared const under -Werror) and, for every function under "
+                "contract, CBMC/DFCC proves the frame condition: every assignment, memcpy/memset and free in the function and its inlined "
+                "callees targets only the caller's buffers named in the contract's assigns clause, locals, or blocks allocated by the call; "
+                "(3) meta-theorem on paper: calls that write only their own arguments' memory and read only never-written shared objects "
+                "are equivalent to some sequential order.",
+    trusted_base=["thread safety of libc malloc/free, sprintf/sscanf and libm", "the non-interference meta-theorem (paper argument)",
+                  "nm symbol types d/D/b/B as the definition of 'writable static-lifetime object' (gcc, -O0)"],
+    not_decided=["interleavings themselves (CBMC does not model threads here)",
+                 "frame conditions of the exported functions that have no contract in this round (see C12's list)"],
+    assumptions=[],
+    level_text="Frame conditions are proved per function under contract (assigns clauses enforced by DFCC on the real code, all inputs); the "
+               "global 'no mutable shared state' fact is a mechanical inventory plus a const-compilation check; no schedules are explored.",
+    level_note="Category 'other': sequential frame proofs + static inventory + a stated non-interference argument, not a concurrency analysis.")
